@@ -24,6 +24,7 @@ var splitTable = map[string][3]string{
 }
 
 func checkC03(p *load.Program, r *kit.Report) {
+	importRules(p, r, "C02", "the BSV split header must be accepted on every branch: its required bits come from the three-sample medians, fetched through the branch's ancestry (AtHeight walks into the parents), also when the window straddles a fork point", 4, nil, "MEDIAN")
 	importRules(p, r, "C09", "the split rules are applied at the height ProcessHeader derives from the stored hash→height labels: a wrong label shifts the split height", 11, nil, "HEIGHT-LABEL")
 	importRules(p, r, "C14", "the node stops reading after it refused a peer: a read-ahead buffer on the connection would still hold (and dispatch) the peer's next message", 1, nil, "READ-AHEAD")
 	r.NotDecided = "that the literal hashes are the hashes of the real fork blocks (needs hashing, i.e. execution); the scripted-peer behaviour end to end; message sequences as such."
@@ -367,6 +368,13 @@ func checkVerifyHeader(p *load.Program, r *kit.Report) {
 		}
 		n++
 		ok, path := kit.DominatedByEdges(f, ret, edgesOf(eq, true), nil, p.Pos)
+		if !ok {
+			// a merged `return err`: what matters is how the paths that avoid the match arrive
+			rr := kit.Reach(f, []kit.Pt{kit.Entry(f)}, kit.Opts{BlockEdge: kit.EdgeSet(edgesOf(eq, true)...)})
+			if !rr.Has(ret) || rr.ErrClass(ret) == kit.ErrNonNil {
+				ok = true
+			}
+		}
 		r.Check(ok, "GUARD-DOM", k.key("VerifyHeader/return-nil"), posOf(p, ret), "success only behind requiredSplit.AfterHash.Equal(header.BlockHash())",
 			"a header other than the BSV split header is reported as verified: "+path)
 	}
